@@ -24,6 +24,9 @@ impl EncodingError {
     pub fn invalid_data(message: &str) -> Self { EncodingError { _p: () } }
 }
 
+/// assumption A-size: no single encodable field (byte string, vector) is longer than 2^40 bytes
+pub const SIZE_BOUND: usize = 0x100_0000_0000;
+
 pub open spec fn le_bytes(v: u64, n: nat) -> Seq<u8>
     decreases n
 {
@@ -47,10 +50,12 @@ pub trait CompactEncoding<Decode = Self>: Sized {
     spec fn enc_ok(&self) -> bool;
     /// values `decode` can produce (canonical form, e.g. Node::new normalises derived fields)
     spec fn dec_ok(d: Decode) -> bool;
+    /// semantic equality of decoded values (what the derived PartialEq compares: contents of Vec / Box, not their identity)
+    spec fn eqv(a: Decode, b: Decode) -> bool;
 
     fn encoded_size(&self) -> (r: Result<usize, EncodingError>)
         ensures
-            r is Ok ==> r->Ok_0 == self.spec_enc().len(),
+            r is Ok && self.enc_ok() ==> r->Ok_0 == self.spec_enc().len(),
             self.enc_ok() && self.spec_enc().len() <= usize::MAX ==> r is Ok;
 
     fn encode<'a>(&self, buffer: &'a mut [u8]) -> (r: Result<&'a mut [u8], EncodingError>)
@@ -64,7 +69,7 @@ pub trait CompactEncoding<Decode = Self>: Sized {
         ensures
             // round trip: whatever was encoded at the front of the buffer comes back, with the rest
             forall|d: Decode| Self::dec_ok(d) && (#[trigger] Self::dec_enc(d)).is_prefix_of(buffer@) ==>
-                r is Ok && r->Ok_0.0 == d && r->Ok_0.1@ == buffer@.skip(Self::dec_enc(d).len() as int),
+                r is Ok && Self::eqv(r->Ok_0.0, d) && r->Ok_0.1@ == buffer@.skip(Self::dec_enc(d).len() as int),
             // truncation: a strict prefix of a valid encoding is an error
             forall|d: Decode| Self::dec_ok(d) && buffer@.len() < (#[trigger] Self::dec_enc(d)).len() && buffer@.is_prefix_of(Self::dec_enc(d)) ==> r is Err,
             // whatever is returned is a suffix of the input
@@ -78,7 +83,10 @@ impl CompactEncoding for u64 {
     open spec fn dec_enc(d: u64) -> Seq<u8> { enc_uint(d) }
     open spec fn enc_ok(&self) -> bool { true }
     open spec fn dec_ok(d: u64) -> bool { true }
-    #[verifier::external_body] fn encoded_size(&self) -> (r: Result<usize, EncodingError>) { unimplemented!() }
+    open spec fn eqv(a: u64, b: u64) -> bool { a == b }
+    #[verifier::external_body] fn encoded_size(&self) -> (r: Result<usize, EncodingError>)
+        ensures r is Ok ==> r->Ok_0 <= SIZE_BOUND   // assumption A-size
+    { unimplemented!() }
     #[verifier::external_body] fn encode<'a>(&self, buffer: &'a mut [u8]) -> (r: Result<&'a mut [u8], EncodingError>) { unimplemented!() }
     #[verifier::external_body] fn decode(buffer: &[u8]) -> (r: Result<(u64, &[u8]), EncodingError>) { unimplemented!() }
 }
@@ -87,7 +95,10 @@ impl CompactEncoding for usize {
     open spec fn dec_enc(d: usize) -> Seq<u8> { enc_uint(d as u64) }
     open spec fn enc_ok(&self) -> bool { true }
     open spec fn dec_ok(d: usize) -> bool { true }
-    #[verifier::external_body] fn encoded_size(&self) -> (r: Result<usize, EncodingError>) { unimplemented!() }
+    open spec fn eqv(a: usize, b: usize) -> bool { a == b }
+    #[verifier::external_body] fn encoded_size(&self) -> (r: Result<usize, EncodingError>)
+        ensures r is Ok ==> r->Ok_0 <= SIZE_BOUND   // assumption A-size
+    { unimplemented!() }
     #[verifier::external_body] fn encode<'a>(&self, buffer: &'a mut [u8]) -> (r: Result<&'a mut [u8], EncodingError>) { unimplemented!() }
     #[verifier::external_body] fn decode(buffer: &[u8]) -> (r: Result<(usize, &[u8]), EncodingError>) { unimplemented!() }
 }
@@ -96,7 +107,10 @@ impl CompactEncoding for Vec<u8> {
     open spec fn dec_enc(d: Vec<u8>) -> Seq<u8> { enc_bytes(d@) }
     open spec fn enc_ok(&self) -> bool { true }
     open spec fn dec_ok(d: Vec<u8>) -> bool { true }
-    #[verifier::external_body] fn encoded_size(&self) -> (r: Result<usize, EncodingError>) { unimplemented!() }
+    open spec fn eqv(a: Vec<u8>, b: Vec<u8>) -> bool { a@ == b@ }
+    #[verifier::external_body] fn encoded_size(&self) -> (r: Result<usize, EncodingError>)
+        ensures r is Ok ==> r->Ok_0 <= SIZE_BOUND   // assumption A-size
+    { unimplemented!() }
     #[verifier::external_body] fn encode<'a>(&self, buffer: &'a mut [u8]) -> (r: Result<&'a mut [u8], EncodingError>) { unimplemented!() }
     #[verifier::external_body] fn decode(buffer: &[u8]) -> (r: Result<(Vec<u8>, &[u8]), EncodingError>) { unimplemented!() }
 }
@@ -105,7 +119,10 @@ impl CompactEncoding for Box<[u8]> {
     open spec fn dec_enc(d: Box<[u8]>) -> Seq<u8> { enc_bytes(d@) }
     open spec fn enc_ok(&self) -> bool { true }
     open spec fn dec_ok(d: Box<[u8]>) -> bool { true }
-    #[verifier::external_body] fn encoded_size(&self) -> (r: Result<usize, EncodingError>) { unimplemented!() }
+    open spec fn eqv(a: Box<[u8]>, b: Box<[u8]>) -> bool { a@ == b@ }
+    #[verifier::external_body] fn encoded_size(&self) -> (r: Result<usize, EncodingError>)
+        ensures r is Ok ==> r->Ok_0 <= SIZE_BOUND   // assumption A-size
+    { unimplemented!() }
     #[verifier::external_body] fn encode<'a>(&self, buffer: &'a mut [u8]) -> (r: Result<&'a mut [u8], EncodingError>) { unimplemented!() }
     #[verifier::external_body] fn decode(buffer: &[u8]) -> (r: Result<(Box<[u8]>, &[u8]), EncodingError>) { unimplemented!() }
 }
@@ -114,9 +131,15 @@ impl<const N: usize> CompactEncoding for [u8; N] {
     open spec fn dec_enc(d: [u8; N]) -> Seq<u8> { d@ }
     open spec fn enc_ok(&self) -> bool { true }
     open spec fn dec_ok(d: [u8; N]) -> bool { true }
-    #[verifier::external_body] fn encoded_size(&self) -> (r: Result<usize, EncodingError>) { unimplemented!() }
+    open spec fn eqv(a: [u8; N], b: [u8; N]) -> bool { a@ == b@ }
+    #[verifier::external_body] fn encoded_size(&self) -> (r: Result<usize, EncodingError>)
+        ensures r is Ok ==> r->Ok_0 <= SIZE_BOUND   // assumption A-size
+    { unimplemented!() }
     #[verifier::external_body] fn encode<'a>(&self, buffer: &'a mut [u8]) -> (r: Result<&'a mut [u8], EncodingError>) { unimplemented!() }
-    #[verifier::external_body] fn decode(buffer: &[u8]) -> (r: Result<([u8; N], &[u8]), EncodingError>) { unimplemented!() }
+    #[verifier::external_body] fn decode(buffer: &[u8]) -> (r: Result<([u8; N], &[u8]), EncodingError>)
+        ensures (buffer@.len() >= N) == (r is Ok),
+            r is Ok ==> r->Ok_0.0@ == buffer@.subrange(0, N as int) && r->Ok_0.1@ == buffer@.skip(N as int)
+    { unimplemented!() }
 }
 // &[u8; N] is encoded like the array (map_encode!(.., hash) with hash: &[u8; 32] resolves through auto-ref)
 impl<'b, const N: usize> CompactEncoding<[u8; N]> for &'b [u8; N] {
@@ -124,7 +147,10 @@ impl<'b, const N: usize> CompactEncoding<[u8; N]> for &'b [u8; N] {
     open spec fn dec_enc(d: [u8; N]) -> Seq<u8> { d@ }
     open spec fn enc_ok(&self) -> bool { true }
     open spec fn dec_ok(d: [u8; N]) -> bool { true }
-    #[verifier::external_body] fn encoded_size(&self) -> (r: Result<usize, EncodingError>) { unimplemented!() }
+    open spec fn eqv(a: [u8; N], b: [u8; N]) -> bool { a@ == b@ }
+    #[verifier::external_body] fn encoded_size(&self) -> (r: Result<usize, EncodingError>)
+        ensures r is Ok ==> r->Ok_0 <= SIZE_BOUND   // assumption A-size
+    { unimplemented!() }
     #[verifier::external_body] fn encode<'a>(&self, buffer: &'a mut [u8]) -> (r: Result<&'a mut [u8], EncodingError>) { unimplemented!() }
     #[verifier::external_body] fn decode(buffer: &[u8]) -> (r: Result<([u8; N], &[u8]), EncodingError>) { unimplemented!() }
 }
@@ -139,8 +165,9 @@ pub open spec fn all_enc_ok<T: CompactEncoding>(s: Seq<T>) -> bool { forall|i: i
 
 pub trait VecEncodable: CompactEncoding {
     fn vec_encoded_size(vec: &[Self]) -> (r: Result<usize, EncodingError>)
+        requires vec@.len() <= SIZE_BOUND   // assumption A-size
         ensures
-            r is Ok ==> r->Ok_0 == enc_uint(vec@.len() as u64).len() + enc_seq(vec@).len(),
+            r is Ok && all_enc_ok(vec@) ==> r->Ok_0 == enc_uint(vec@.len() as u64).len() + enc_seq(vec@).len(),
             all_enc_ok(vec@) && enc_uint(vec@.len() as u64).len() + enc_seq(vec@).len() <= usize::MAX ==> r is Ok;
 }
 impl<T: VecEncodable> CompactEncoding for Vec<T> {
@@ -148,7 +175,10 @@ impl<T: VecEncodable> CompactEncoding for Vec<T> {
     open spec fn dec_enc(d: Vec<T>) -> Seq<u8> { enc_uint(d@.len() as u64) + enc_seq(d@) }
     open spec fn enc_ok(&self) -> bool { all_enc_ok(self@) }
     open spec fn dec_ok(d: Vec<T>) -> bool { forall|i: int| 0 <= i < d@.len() ==> T::dec_ok(#[trigger] d@[i]) }
-    #[verifier::external_body] fn encoded_size(&self) -> (r: Result<usize, EncodingError>) { unimplemented!() }
+    open spec fn eqv(a: Vec<T>, b: Vec<T>) -> bool { a@.len() == b@.len() && forall|i: int| 0 <= i < a@.len() ==> T::eqv(#[trigger] a@[i], b@[i]) }
+    #[verifier::external_body] fn encoded_size(&self) -> (r: Result<usize, EncodingError>)
+        ensures r is Ok ==> r->Ok_0 <= SIZE_BOUND   // assumption A-size
+    { unimplemented!() }
     #[verifier::external_body] fn encode<'a>(&self, buffer: &'a mut [u8]) -> (r: Result<&'a mut [u8], EncodingError>) { unimplemented!() }
     #[verifier::external_body] fn decode(buffer: &[u8]) -> (r: Result<(Vec<T>, &[u8]), EncodingError>) { unimplemented!() }
 }
@@ -156,10 +186,67 @@ impl<T: VecEncodable> CompactEncoding for Vec<T> {
 // ---------------- helper functions of the crate (assumed) ----------------
 #[verifier::external_body]
 pub fn encoded_size_usize(val: usize) -> (r: usize)
-    ensures r == enc_uint(val as u64).len()
+    ensures r == enc_uint(val as u64).len(), r <= 9
+{ unimplemented!() }
+
+#[verifier::external_body]
+pub fn as_array<const N: usize>(buffer: &[u8]) -> (r: Result<&[u8; N], EncodingError>)
+    ensures (buffer@.len() == N) == (r is Ok), r is Ok ==> r->Ok_0@ == buffer@
+{ unimplemented!() }
+#[verifier::external_body]
+pub fn take_array<const N: usize>(buffer: &[u8]) -> (r: Result<([u8; N], &[u8]), EncodingError>)
+    ensures (buffer@.len() >= N) == (r is Ok),
+        r is Ok ==> r->Ok_0.0@ == buffer@.subrange(0, N as int) && r->Ok_0.1@ == buffer@.skip(N as int)
+{ unimplemented!() }
+#[verifier::external_body]
+pub fn write_array<'a, const N: usize>(source: &[u8; N], buffer: &'a mut [u8]) -> (r: Result<&'a mut [u8], EncodingError>)
+    ensures (old(buffer)@.len() >= N) == (r is Ok),
+        r is Ok ==> (*r->Ok_0)@ == old(buffer)@.skip(N as int) && final(buffer)@ == source@ + (*final(r->Ok_0))@
+{ unimplemented!() }
+#[verifier::external_body]
+pub fn write_slice<'a>(source: &[u8], buffer: &'a mut [u8]) -> (r: Result<&'a mut [u8], EncodingError>)
+    ensures (old(buffer)@.len() >= source@.len()) == (r is Ok),
+        r is Ok ==> (*r->Ok_0)@ == old(buffer)@.skip(source@.len() as int) && final(buffer)@ == source@ + (*final(r->Ok_0))@
+{ unimplemented!() }
+#[verifier::external_body]
+pub fn encode_bytes_fixed<'a, const N: usize>(value: &[u8; N], buffer: &'a mut [u8]) -> (r: Result<&'a mut [u8], EncodingError>)
+    ensures (old(buffer)@.len() >= N) == (r is Ok),
+        r is Ok ==> (*r->Ok_0)@ == old(buffer)@.skip(N as int) && final(buffer)@ == value@ + (*final(r->Ok_0))@
+{ unimplemented!() }
+#[verifier::external_body]
+pub fn get_slices_checked(buffer: &[u8], mid: usize) -> (r: Result<(&[u8], &[u8]), EncodingError>)
+    ensures (buffer@.len() >= mid) == (r is Ok),
+        r is Ok ==> r->Ok_0.0@ == buffer@.subrange(0, mid as int) && r->Ok_0.1@ == buffer@.skip(mid as int)
+{ unimplemented!() }
+#[verifier::external_body]
+pub fn decode_usize(buffer: &[u8]) -> (r: Result<(usize, &[u8]), EncodingError>)
+    ensures
+        forall|d: usize| (#[trigger] usize::dec_enc(d)).is_prefix_of(buffer@) ==>
+            r is Ok && r->Ok_0.0 == d && r->Ok_0.1@ == buffer@.skip(usize::dec_enc(d).len() as int),
+        forall|d: usize| buffer@.len() < (#[trigger] usize::dec_enc(d)).len() && buffer@.is_prefix_of(usize::dec_enc(d)) ==> r is Err,
+        r is Ok ==> r->Ok_0.1@.len() <= buffer@.len() && r->Ok_0.1@ == buffer@.skip(buffer@.len() - r->Ok_0.1@.len())
 { unimplemented!() }
 
 // ---------------- lemmas about the format (proved) ----------------
+pub proof fn lemma_enc_seq_push<T: CompactEncoding>(s: Seq<T>, x: T)
+    ensures enc_seq(s.push(x)) == enc_seq(s) + T::dec_enc(x)
+    decreases s.len()
+{
+    if s.len() == 0 {
+        assert(s.push(x).skip(1) =~= Seq::<T>::empty());
+        assert(enc_seq(s.push(x).skip(1)) =~= Seq::<u8>::empty());
+        assert(enc_seq(s) =~= Seq::<u8>::empty());
+        assert(enc_seq(s.push(x)) =~= T::dec_enc(x) + Seq::<u8>::empty());
+        assert(enc_seq(s) + T::dec_enc(x) =~= T::dec_enc(x));
+        assert(T::dec_enc(x) + Seq::<u8>::empty() =~= T::dec_enc(x));
+    } else {
+        lemma_enc_seq_push(s.skip(1), x);
+        assert(s.push(x).skip(1) =~= s.skip(1).push(x));
+        assert(s.push(x)[0] == s[0]);
+        assert(T::dec_enc(s[0]) + (enc_seq(s.skip(1)) + T::dec_enc(x)) =~= (T::dec_enc(s[0]) + enc_seq(s.skip(1))) + T::dec_enc(x));
+    }
+}
+
 pub proof fn lemma_le_bytes_len(v: u64, n: nat)
     ensures le_bytes(v, n).len() == n
     decreases n
